@@ -93,6 +93,7 @@ func main() {
 		x.rep.CorrCases++
 	}
 	fm, im, hm, bm := rulesh.FlowMod(), rulesh.IsoMod(), rulesh.HotMod(), rulesh.BrkMod()
+	rulesh.RegisterGenerators(fm, hm, bm)
 	one := func(id int, corr bool) {
 		switch {
 		case id >= outBase:
